@@ -296,7 +296,7 @@ def place_root(prov, op):
     t = sym.strip(prov.op(op))
     while t[0] in ("ref", "deref"):
         t = sym.strip(t[1])
-    if t[0] in ("arg", "local", "field"):
+    if t[0] in ("arg", "local", "field", "call", "variant"):
         return t
     return None
 
